@@ -51,6 +51,20 @@ def utf8_cases(ctx):
             out.append(bs[:p] + [rng.choice(REPS)] + bs[p + 1:])
             out.append(bs[:p] + bs[p + 1:])
             out.append(bs[:p] + [0x80] + bs[p:])
+    # run-length structure: a multi-byte character split by a run of ASCII (or other) bytes of every
+    # length 1..9 at every position (aimed at loops that process several bytes per iteration)
+    for cp in (0xE9, 0x20AC, 0x1F600, 0x7FF, 0x800, 0xFFFF, 0x10000):
+        e = enc_scalar(cp)
+        for p in range(1, len(e)):
+            for k in range(1, 10):
+                for fill in ([0x61], [0x80], [0xC3, 0xA9]):
+                    run = (fill * k)[:k]
+                    out.append(e[:p] + run + e[p:])
+                    out.append([0x41] * (k - 1) + e[:p] + run + e[p:] + [0x42] * (k % 3))
+        for k in range(0, 10):
+            out.append([0x61] * k + e + [0x62] * k)
+            out.append([0x61] * k + e[:-1])
+            out.append(e[:1] + [0x61] * k)
     # surrogates, overlongs, above U+10FFFF
     out += [[0xED, 0xA0, 0x80], [0xED, 0xBF, 0xBF], [0xED, 0x9F, 0xBF], [0xC0, 0x80], [0xC1, 0xBF], [0xE0, 0x80, 0x80],
             [0xE0, 0x9F, 0xBF], [0xE0, 0xA0, 0x80], [0xF0, 0x80, 0x80, 0x80], [0xF0, 0x8F, 0xBF, 0xBF], [0xF0, 0x90, 0x80, 0x80],
